@@ -69,12 +69,14 @@ def cases(tier, seed):
                "n": 12 if tier == "quick" else 400}
     yield {"k": "stride", "seed": rnd.randrange(1 << 30), "n": 60 if tier == "quick" else 600}
     # many connections in a row that each end in rejected input
+    # (own generator: the cases that follow keep the seeds they had before these were added)
+    rnd_streak = random.Random(f"C17/streak/{tier}/{seed}")
     for gen in (4, 5):
         for n, kinds in ((7, ["crc"]), (12, ["flip"]), (25, ["crc", "flip", "noise"]),
                          (9, ["noise"])) + (((120, ["flip", "crc"]),) if tier == "thorough"
                                             else ()):
             yield {"k": "streak", "gen": gen, "n": n, "kinds": kinds,
-                   "seed": rnd.randrange(1 << 30)}
+                   "seed": rnd_streak.randrange(1 << 30)}
     n = 150 if tier == "quick" else 60000
     for i in range(n):
         yield {"k": "stream", "gen": rnd.choice((4, 5)), "seed": rnd.randrange(1 << 30),
